@@ -211,6 +211,7 @@ class DetOracle:
         self.rules, self.start, self.weight, self.limit = rules, start, weight, limit
         self.memo = {}
         self.busy = set()
+        self.dead_rules = []      # rules from which no term can be derived (grammar not clean)
 
     def seqs(self, nt):
         """[(term, probability, final state)]"""
@@ -232,6 +233,8 @@ class DetOracle:
                             raise TooLarge()
                 partial = nxt
             h = head_of(P)
+            if not partial:
+                self.dead_rules.append((nt, P))
             for kids, pw, cur in partial:
                 out.append(((h, kids), pw, cur))
             if len(out) > self.limit:
@@ -465,6 +468,14 @@ def check_det(case, M, rng, g, res):
         tags.append("cyclic")
         return res
     terms = [t for t, _ in lang0]
+    if orc0.dead_rules:
+        if plain:
+            fail("oracle", "a rule of a clean CFG derives no program", str(orc0.dead_rules[:2]))
+        else:
+            # TTCFG.size_constraint leaves unproductive rules behind (saturation builder, property
+            # C13): on such a table neither programs() nor any weight assignment can be right
+            tags.append("unclean-ttcfg(C13)")
+            return res
     if len({freeze(t) for t in terms}) != len(terms):
         fail("oracle", "a program has two derivations in a deterministic grammar", "")
     objs = {}
@@ -506,7 +517,7 @@ def check_det(case, M, rng, g, res):
             pg = None
             outcome = type(e).__name__
         ans = M.ask([Sym("c04.samples"), gw, [term_wire(t) for t in samples]])
-        if ans[0] == "error":
+        if ans[0] == "exn":
             if outcome != str(ans[1]):
                 fail("corr", "pcfg_from_samples: exception differs from the model", f"impl={outcome} model={ans[1]}")
         elif outcome != "ok":
